@@ -27,7 +27,7 @@ import (
 // leaves the contents unchanged, a not-found one caches nothing.
 
 const (
-	xsAbsent = iota
+	xsAbsent  = iota
 	xsExpired // an entry that has expired and was not swept
 	xsInvalidated
 	numXStates
